@@ -74,6 +74,12 @@ def corpus20():
                  "body": [("simult", [("x", P.det(("add", v("y"), v("_t2")))), ("y", P.det(("add", v("x"), v("_t5"))))]),
                           ("assign", "_t9", P.det(("add", v("_t9"), v("x"))))]},
                 [{"x": 1}, {"_t9": 1}, {"y": 1}], "user-names-like-generated"))
+    # the SAME names with different roles in two programs: s is Sin(u) in the first and an ordinary accumulator in the second
+    # (records kept per analysis about functional assignments must not survive into the next analysis)
+    out.append(({"raw": "u = 0\ns = 0\nx = 0\nwhile true:\n    u = Normal(0, 1)\n    s = Sin(u)\n    x = x + s**2\nend\n"},
+                [{"x": 1}, {"s": 2}], "functional-names:first"))
+    out.append(({"raw": "u = 0\ns = 0\nwhile true:\n    u = Bernoulli(1/2)\n    s = s + u\nend\n"},
+                [{"s": 1}, {"s": 2}, {"s": 1, "u": 1}], "functional-names:second"))
     # conditioned draw (error outcome is sensitive to a leaked cond2arithm)
     out.append(({"types": [], "init": [("assign", "f0", P.det(c(0))), ("assign", "d0", P.det(c(0))), ("assign", "a0", P.det(c(0)))],
                  "guard": ("true",),
@@ -94,8 +100,13 @@ def corpus20():
     return out
 
 
+def ptext(p):
+    """program text: progast AST, or {"raw": text} for programs outside progast (functional assignments)"""
+    return p["raw"] if isinstance(p, dict) and "raw" in p else P.prog_text(p)
+
+
 def goals_step(p, goals):
-    return {"op": "goals", "text": P.prog_text(p), "goals": [gen.goal_text(m) for m in goals]}
+    return {"op": "goals", "text": ptext(p), "goals": [gen.goal_text(m) for m in goals]}
 
 
 def run_fresh(tasks, timeout=120, jobs=14):
@@ -216,7 +227,7 @@ def alpha_name_list(ms):
 
 def report(ctx, kind, B, hist_a, hist_b, ref, rec, hist, extra=None):
     """compare and report; returns True when equal"""
-    text = P.prog_text(B[0])
+    text = ptext(B[0])
     diffs = compare(ref, rec)
     ctx.count({"t": text, "a": hist_a, "b": hist_b}, nontrivial=True)
     ctx.coverage["obligations"] += 1
@@ -307,14 +318,19 @@ def run(ctx):
         if B[2] == "user-names-like-generated":
             for k in (1, 2, 4, 5, 8, 9):
                 add("after-other-programs", bi, [{"op": "names", "tags": ["u"] * k}, goals_step(B[0], B[1])], 1, f"{k} names requested, B")
+    tags = {B[2]: bi for bi, B in enumerate(progs)}
+    if "functional-names:first" in tags and "functional-names:second" in tags:
+        a_, b_ = progs[tags["functional-names:first"]], progs[tags["functional-names:second"]]
+        add("after-other-programs", tags["functional-names:second"], [goals_step(a_[0], a_[1]), goals_step(b_[0], b_[1])], 1, "functional-names:first, B")
+        add("after-other-programs", tags["functional-names:first"], [goals_step(b_[0], b_[1]), goals_step(a_[0], a_[1])], 1, "functional-names:second, B")
     # settings prefixes (a subset of programs)
     sub = list(range(len(progs)))[:ctx.pick(4, 20)]
     for bi in sub:
         B = progs[bi]
         A = progs[(bi + 1) % len(progs)]
         gB, gA = gen.goal_text(B[1][0]), gen.goal_text(A[1][0])
-        plotB = {"op": "plot", "text": P.prog_text(B[0]), "goals": [gB]}
-        plotA = {"op": "plot", "text": P.prog_text(A[0]), "goals": [gA]}
+        plotB = {"op": "plot", "text": ptext(B[0]), "goals": [gB]}
+        plotA = {"op": "plot", "text": ptext(A[0]), "goals": [gA]}
         # polar.py A B --plot g --plot_expectation --plot_std  vs  polar.py B --plot ...
         add("plot-run:fresh", bi, [plotB], 0, "plot B")
         add("plot-run:after-plot", bi, [plotA, plotB], 1, "plot A, plot B")
@@ -368,13 +384,13 @@ def run(ctx):
                 lo, hi = st["counter_before"], st["counter_after"]
                 outside = [k for k in ks if not (lo <= k < hi)]
                 if outside and not (src & {"u", "k", "c", "t", "a", "prob", "old", "r"}):
-                    ctx.violation(f"counter-model:{P.prog_text(B[0])}", {"flat_program": st["flat_text"], "counter_before": lo, "counter_after": hi,
+                    ctx.violation(f"counter-model:{ptext(B[0])}", {"flat_program": st["flat_text"], "counter_before": lo, "counter_after": hi,
                                                                           "indices_outside": outside, "steps": t["steps"]},
                                   f"generated names with indices {outside} although the name counter went from {lo} to {hi}")
         if same:
             textual += textual_only(ref, rec)
             for g, h in systems_differ(ref, rec):
-                perm_cases.append((P.prog_text(B[0]), m["label"], g, h))
+                perm_cases.append((ptext(B[0]), m["label"], g, h))
     ctx.coverage["comparison_histogram"] = hist
     ctx.coverage["worker_failures"] = crash
     ctx.coverage["closed_forms_textually_different_but_equal_on_n<=6"] = textual
@@ -539,7 +555,7 @@ def part_cli(ctx, progs):
     stat = {}
     d = tempfile.mkdtemp(prefix="c20cli_", dir=ctx.scratch)
     pairs = []
-    cand = [(i, p) for i, p in enumerate(progs) if p[2] not in ("conditioned-draw",)]
+    cand = [(i, p) for i, p in enumerate(progs) if p[2] not in ("conditioned-draw",) and "raw" not in p[0]]
     for j in range(60):
         if len(cand) < 2 or len(pairs) >= ctx.pick(3, 8):
             break
@@ -553,7 +569,7 @@ def part_cli(ctx, progs):
         fa, fb = os.path.join(d, f"p{a[0]}.prob"), os.path.join(d, f"p{b[0]}.prob")
         for f, pr in ((fa, a[1]), (fb, b[1])):
             with open(f, "w") as fh:
-                fh.write(P.prog_text(pr[0]))
+                fh.write(ptext(pr[0]))
         jobs.append(("goals", a, b, fa, fb, ["--goals"] + goals))
     # --invariants without goals: the goals of the second file must be its own variables
     if len(cand) >= 2:
